@@ -311,9 +311,30 @@ def config_text(mapping_path, fmt='N-TRIPLES', partitioning=None, extra='', sect
     return '\n'.join(x for x in c if x) + '\n'
 
 
+LAST_RULES = {}
+
+
+def _install_capture():
+    """stash the rule table that materialize_set computes (saves a second parse for the I6/I7 correspondences)"""
+    import morph_kgc
+    if getattr(morph_kgc, '_verif_capture', False):
+        return
+    orig = morph_kgc.retrieve_mappings
+
+    def wrapper(config):
+        rml_df, fnml_df = orig(config)
+        LAST_RULES['rml_df'] = rml_df.copy()
+        LAST_RULES['fnml_df'] = fnml_df.copy()
+        return rml_df, fnml_df
+    morph_kgc.retrieve_mappings = wrapper
+    morph_kgc._verif_capture = True
+
+
 def run_engine(cfg_text, python_source=None):
     """materialize_set -> ('ok', sorted list) | ('exc', ExceptionClassName: message)"""
     import morph_kgc
+    _install_capture()
+    LAST_RULES.clear()
     try:
         res = morph_kgc.materialize_set(cfg_text, python_source)
         bad = [x for x in res if not isinstance(x, str)]
